@@ -367,7 +367,7 @@ func genRoutePlan(r *rand.Rand, tier string) *vfPlan {
 		p.Cfg.PwBackend = "command"
 		add(vfStep{Op: "helper_mode", A: pick(r, []string{"kill", "kill", "exit3", "ok"})})
 	}
-	shapes := []string{"none", "basic-wrong", "expired-cookie", "forged-cookie", "wrongkind-cookie", "lowlevel-cookie", "usercert", "denied-key-cert", "foreign-cert", "ipcert-outside", "ipcert-outside-fwd", "csrf", "csrf"}
+	shapes := []string{"none", "basic-wrong", "expired-cookie", "forged-cookie", "wrongkind-cookie", "lowlevel-cookie", "usercert", "denied-key-cert", "denied-key-cert", "foreign-cert", "ipcert-outside", "ipcert-outside-fwd", "csrf", "csrf"}
 	methods := []string{"GET", "POST", "POST", "PUT", "DELETE", "HEAD", "OPTIONS"}
 	n := 25 + r.IntN(40)
 	if tier == "thorough" {
